@@ -87,7 +87,7 @@ func checkC10(p *Prog, r *Result, tier string) {
 	// R5: the goroutine closures
 	var closures []*ssa.Function
 	for _, f := range p.Roots() {
-		if f.Parent() != nil && c.Of(f).Has(EFsWObj) {
+		if p.GoRoot[f] && (f.Parent() != nil || p.GoOnly[f]) && c.Of(f).Has(EFsWObj) {
 			closures = append(closures, f)
 		}
 	}
